@@ -30,6 +30,27 @@ def load_mutants():
                 for m in json.load(fh):
                     m['source'] = fn
                     out.append(m)
+    # independently produced changes kept as diffs: seeded breaking changes (must be reported by their own property's check)
+    # and behaviour-preserving refactorings (every check must stay silent)
+    verif = os.path.dirname(HERE)
+    for sub, expect in (('seeded', 'violation'), ('refactors', 'silent')):
+        base = os.path.join(verif, sub)
+        if not os.path.isdir(base):
+            continue
+        for name in sorted(os.listdir(base)):
+            pp = os.path.join(base, name, 'patch.diff')
+            mp = os.path.join(base, name, 'meta.json')
+            if not (os.path.exists(pp) and os.path.exists(mp)):
+                continue
+            with open(mp) as fh:
+                meta = json.load(fh)
+            if sub == 'seeded':
+                if not meta.get('confirmed'):
+                    continue
+                props = [meta['breaks_property']]
+            else:
+                props = ['C%02d' % i for i in range(1, 17)]
+            out.append(dict(id='%s:%s' % (sub, name), properties=props, expect=expect, patch=pp, source=sub))
     return out
 
 
@@ -56,7 +77,11 @@ def apply_edits(root, edits):
 def run_one(m, tier='quick', only=None):
     d, root = scratch_copy()
     try:
-        if not apply_edits(root, m['edits']):
+        if 'patch' in m:
+            applied = subprocess.run(['git', 'apply', '--whitespace=nowarn', m['patch']], cwd=root, capture_output=True).returncode == 0
+        else:
+            applied = apply_edits(root, m['edits'])
+        if not applied:
             return dict(id=m['id'], status='skipped', reason='patch does not apply to the current tree')
         env = dict(os.environ, EVX_REPO=root, EVX_NO_EXTRAS='1')
         res = {}
